@@ -89,9 +89,8 @@ package specs
 // Unix seconds of a time value; the most recent reading is kept in ghost state. The clock is
 // assumed not to be set before 1970.
 //@ func time.(Time).Unix
-//@ assigns lastNowUnix()
-//@ records lastNowUnix() == result
-//@ ensures result >= 0
+//@ pure
+//@ ensures result >= 0 && result < 1<<62
 //@ func time.(Duration).Seconds
 //@ pure
 //@ ensures d > 0 ==> result >= 0.0 && result <= 9300000000.0
